@@ -143,6 +143,9 @@ def fmt_width(P, fn, fmt, args):
     return total
 
 
+_depth = [0]
+
+
 def offset_upper_bound(P, fn, site, offvar, extent):
     """Largest value the offset variable can have at `site` (inclusive), or None.
     Knows: constants, ++ under a test, `off += snprintf(<literal format>)`, and the
@@ -184,6 +187,36 @@ def offset_upper_bound(P, fn, site, offvar, extent):
                 if words and stops:
                     word_cap = max(words)
 
+    # a counter that only advances while `param[counter]` is not the terminator, the parameter being a literal at
+    # every call site, never exceeds the longest literal (measuring the first word of a format before copying it)
+    if word_cap is None and incs:
+        lit_cap = None
+        okall = True
+        for inc in incs:
+            gs = fn.guards(inc.bid)
+            hit = None
+            for g in gs:
+                l, op, rr = g
+                if isinstance(l, dict) and l.get('k') == 'idx' and is_var(l.get('index'), offvar) and is_var(l.get('base')) and l['base'].get('sc') == 'param' \
+                        and op == '!=' and const_of(rr) == 0 and l['base']['name'] in fn.params:
+                    hit = fn.params.index(l['base']['name'])
+            if hit is None:
+                okall = False
+                break
+            lens = []
+            for c in P.callers(fn, may=True):
+                lit = rules.fmt_literal(c.ev, hit)
+                if lit is None:
+                    okall = False
+                    break
+                lens.append(len(lit))
+            if not okall or not lens:
+                okall = False
+                break
+            lit_cap = max(lens) if lit_cap is None else max(lit_cap, max(lens))
+        if okall and lit_cap is not None:
+            word_cap = lit_cap
+
     def on_edge(ub, e):
         r = rules.edge_rel(e)
         if r:
@@ -200,6 +233,13 @@ def offset_upper_bound(P, fn, site, offvar, extent):
         if ev['k'] == 'store' and is_var(ev.get('lhs'), offvar):
             if ev.get('op') == '=':
                 c = const_of(ev.get('rhs'))
+                if c is None and is_var(ev.get('rhs')) and ev['rhs']['name'] != offvar and _depth[0] < 3:
+                    _depth[0] += 1
+                    try:
+                        o = offset_upper_bound(P, fn, s, ev['rhs']['name'], extent)
+                    finally:
+                        _depth[0] -= 1
+                    return o if o is not None else INF
                 return c if c is not None else INF
             if ev.get('op') == '++':
                 if word_cap is not None:
@@ -285,6 +325,11 @@ def classify_call(P, fn, s):
         if ex is not None and n is not None:
             room = (ex[0] - ex[1]) * ex[2]
             return ('5 mem*(array, ., n<=sizeof array)', 'n=%d size=%d' % (n, room)) if n <= room else (None, 'n=%d exceeds %d' % (n, room))
+        if ex is not None and is_var(a[2]):
+            room = (ex[0] - ex[1]) * ex[2]
+            ub = offset_upper_bound(P, fn, s, a[2]['name'], ex[0])
+            if ub is not None and ub <= room:
+                return '16 mem*(array, ., n) with n bounded by the array size', 'n<=%d size=%d' % (ub, room)
         # idiom 4: memcpy(dst, src_array, p - src_array), p = strchr(src_array, c) non-null here
         if ex is not None and a[2].get('k') == 'bin' and a[2]['op'] == '-' and is_var(a[2]['l']):
             p = a[2]['l']['name']
